@@ -263,6 +263,11 @@ func Watch(limit time.Duration, what string) func() {
 
 var detFile *os.File
 
+// DetFine reports whether the fine-grained determinism trace (one line per simulator event) is wanted.
+var detFine = os.Getenv("VERIF_DETFINE") != ""
+
+func DetFine() bool { return detFine }
+
 // DetLog appends one line per run to $VERIF_DETLOG (determinism self-test: the files of two processes running the
 // same seed must be byte-identical). Never draws, never reads a clock.
 func DetLog(format string, args ...interface{}) {
